@@ -152,29 +152,41 @@ let key_of (x : t) : string =
 let () =
   run_file Sys.argv.(1) (fun _ sx ->
     match sx with
-    | [L [A "client"; path; req]; L [A "obs"; hf; hp; body; call]] ->
+    | [L (A "client" :: path :: req :: after); L (A "obs" :: hf :: hp :: body :: call :: flags)] ->
+      (* [after]: the paths of the earlier calls made with the same request value
+         (and client); the model is a function of this call's inputs alone, so
+         any dependence on that history is a disagreement.
+         [flags]: (mod) = the caller's request value was no longer what it was
+         before the first call *)
+      let modified = List.exists (function L [A "mod"] -> true | _ -> false) flags in
+      if after <> [] then bump "client_later_call_of_a_sequence";
       let path = str path and r = request_of req in
       let hf = table_fmt hf and hp = table_parse hp in
       bump "stream_client";
       describe_request r;
-      let fits = fits_request r in
+      let r' = denote path r in
+      if r' <> r then bump "client_multiget_default_href";
+      let fits = fits_request r' in
       if not fits then bump "client_beyond_nesting_limit";
-      let expr = expressible hf hp r && fits in
+      let expr = expressible hf hp r' && fits in
       bump (if expr then "client_expressible" else "client_outside_grammar");
       note_nontrivial (key_of (List.hd sx));
       (match (try `V (tree_of body, call_of call) with Unrepresentable m -> `U m) with
        | `U m -> verdict ~agree:false ~spec:(not expr) ~kf:"-" ~detail:("observation outside the vocabulary: " ^ m)
        | `V (body, call) ->
          bump ("client_call_" ^ show_call call);
-         let agree = client_agrees hf hp path r body call in
+         let agree = client_agrees hf hp path r body call && not modified in
          let spec = client_spec_ok hf hp path r body call in
          if agree && spec then None else
          verdict ~agree ~spec ~kf:"-"
-           ~detail:(Printf.sprintf "expressible=%b body_as_model=%b model_call=%s rfc_read_ok=%b"
+           ~detail:(Printf.sprintf "%sexpressible=%b body_as_model=%b model_call=%s rfc_read_ok=%b"
+                      (if modified then "CLIENT MODIFIED ITS ARGUMENT " else "")
                       expr (strip_decls body = client_body hf path r)
                       (show_call (canon_call (handle_report hp path body)))
-                      (rfc_read hp body = Some (normalise r))))
-    | [L [A "server"; path; rq; _bytes]; L [A "obs"; hf; hp; doc; call]] ->
+                      (rfc_read hp body = Some (normalise r'))))
+    | [L (A "server" :: path :: rq :: _bytes :: after); L [A "obs"; hf; hp; doc; call]] ->
+      (* [after]: the requests the same handler value served before this one *)
+      if after <> [] then bump "server_later_request_of_a_sequence";
       let path = str path in
       let hf = table_fmt hf and hp = table_parse hp in
       bump "stream_server";
@@ -197,6 +209,7 @@ let () =
             let shadow = has_shadow doc in
             let fits = fits_request r in
             if not fits then bump "server_beyond_nesting_limit";
+            if indom && not (variant_b (rfc_write hf r) doc) then bump "server_variant_without_comp";
             bump (if indom then "server_conformant_variant"
                   else if not fits then "server_variant_beyond_limit" else "server_NOT_A_VARIANT");
             if indom && shadow then bump "server_variant_with_attribute_lookalike";
